@@ -5,7 +5,7 @@ tie   : T-gen (GrowCapacity regenerated + validated) and T-cor (extracted model 
 oracle: std::vector<long long> twin inside the harness + the reserve/no-allocation claim evaluated on the real code."""
 import os, re
 
-GEN = ['gen_grow.json']
+GEN = ['gen_grow.json', 'gen_guards_shifter.json', 'gen_guards_array.json', 'gen_guards_seg.json']
 ELEMS = ['pod', 'ntm', 'cpy', 'smh', 'str']
 # container configs: (name, ic / logInitialItemCount)
 def configs(elem):
@@ -308,6 +308,27 @@ def rej_oracle(case, out):
     return None, None
 
 
+def guard_cases(ctx, scale):
+    """translator validation of the generated guards: the real functions on arrays with exactly n items / capacity cap, every
+    numeric argument at 0, 1, n-1, n, n+1, free, free+1 and at the top of the 64-bit range (where the sums wrap)"""
+    U = 2 ** 64; out = []
+    for (n, cap) in [(0, 0), (0, 3), (1, 1), (4, 4), (5, 8), (3, 7), (8, 8)] + ([(2, 16), (7, 9)] if scale > 1 else []):
+        small = sorted(set([0, 1, max(0, n - 1), n, n + 1, cap - n, cap - n + 1, cap + 1]))
+        huge = sorted(set([U - 1, U - 2, U - n, U - n - 1, U - n + 1, U - cap, U - cap - 1 + n]) & set(range(U - 40, U)))
+        vals = [v for v in small if 0 <= v < U] + huge
+        for i in vals:
+            for c in vals:
+                out.append('gd remove %d %d %d %d' % (n, cap, i, c))
+                out.append('gd insnogrow %d %d %d %d' % (n, cap, i, c))
+                if c <= 64 or n + c >= U:     # (a huge count that does NOT wrap is a genuine huge allocation request: not a guard matter)
+                    out.append('gd insert %d %d %d %d' % (n, cap, i, c))
+                    out.append('gd seginsert %d 0 %d %d' % (n, i, c))
+            out.append('gd rb %d %d 0 %d' % (n, cap, i)); out.append('gd segrb %d 0 0 %d' % (n, i))
+            out.append('gd idx %d %d %d 0' % (n, cap, i))
+        out.append('gd abn %d %d 0 0' % (n, cap))
+    return out
+
+
 def grow_cases(ctx, scale):
     r = ctx.rng; out = []
     edge = [0, 1, 2, 3, 4, 5, 63, 64, 65, 66, 128, 129, 149, 150, 151, 199, 200, 250, 1000, 2 ** 32, 2 ** 63, 2 ** 64 - 66, 2 ** 64 - 65, 2 ** 64 - 2]
@@ -476,6 +497,14 @@ def run(ctx):
         ctx.tie_obligations.append({'name': 'generated GrowCapacity == real ArraySettings::GrowCapacity on %d cases' % len(gcases), 'ok': not mism})
         for (i, c, a, b) in mism[:2]:
             ctx.violation('generated GrowCapacity and the implementation disagree', {'case': c, 'impl': a, 'model': b}, found_input=True)
+        gdc = guard_cases(ctx, scale)
+        mism, _ = ctx.correspond('guards-translation', gdc, [hs['pod']], [ctx.model_exe])
+        ctx.tie_obligations.append({'name': 'generated range checks (Remove, InsertNogrow, Array::Insert prefix, RemoveBack, AddBackNogrow, operator[], '
+                                            'SegmentedArray::Insert/RemoveBack) == real functions on %d boundary cases' % len(gdc), 'ok': not mism})
+        for (i, c, a, b) in mism[:2]:
+            ctx.violation('a generated range check and the real function disagree', {'case': c, 'impl': a, 'model': b,
+                          'cmd': 'echo "%s" | build/C05/harness_pod' % c}, found_input=True)
+        ctx.coverage['guard_cases'] = len(gdc)
         for e in ELEMS:
             mism, _ = ctx.correspond('scripts-' + e, cases[e], [hs[e]], [ctx.model_exe])
             ctx.tie_obligations.append({'name': 'extracted array model == real containers (%s elements) on %d scripts' % (e, len(cases[e])), 'ok': not mism})
